@@ -1461,6 +1461,14 @@ def _chain(ex, args, kwargs, fr):
     return ex.st.alloc(HList(out))
 
 
+@libfn("itertools.chain.from_iterable")
+def _chain_from_iterable(ex, args, kwargs, fr):
+    out = []
+    for a in ex.iterate(args[0], fr):
+        out.extend(ex.iterate(a, fr))
+    return ex.st.alloc(HList(out))
+
+
 @libfn("itertools.product")
 def _product(ex, args, kwargs, fr):
     import itertools
